@@ -1,12 +1,15 @@
 #!/bin/sh
-# usage: tools/try_seed.sh <seed-dir-name> <prop> [<prop>...]   — apply a seeded patch to /repo, run checks, always revert
+# usage: tools/try_seed.sh <seed-dir-name> <prop> [<prop>...]
+# applies a seeded patch to a scratch copy of /repo (never to /repo itself) and runs the checks against that copy;
+# evidence / replay files of these runs go to the scratch copy, not to /verif/evidence
 seed=$1; shift
-cd /repo || exit 2
-if ! git diff --quiet; then echo "/repo has uncommitted changes; refusing"; exit 2; fi
-git apply /verif/seeded/$seed/patch.diff || { echo "patch does not apply"; exit 2; }
-trap 'git -C /repo checkout -- . ; git -C /repo clean -fdq entrait_macros tests 2>/dev/null' EXIT INT TERM
+scratch=/var/tmp/vx-try-$seed
+rm -rf $scratch; mkdir -p $scratch
+rsync -a --exclude target --exclude .git /repo/ $scratch/
+( cd $scratch && git apply /verif/seeded/$seed/patch.diff ) || { echo "patch does not apply"; rm -rf $scratch; exit 2; }
 cd /verif
 for p in "$@"; do
-  ./vx check $p >/tmp/try_seed_$p.out 2>/tmp/try_seed_$p.err; rc=$?
+  VX_REPO=$scratch VX_SCRATCH_OUT=$scratch/out ./vx check $p >/tmp/try_seed_$p.out 2>/tmp/try_seed_$p.err; rc=$?
   echo "== $seed / $p : exit $rc"; grep -E "^VIOLATION|^UNDECIDED|^KNOWN|^vx:" /tmp/try_seed_$p.out | head -8; grep "violated:" /tmp/try_seed_$p.err | head -5
 done
+rm -rf $scratch
